@@ -164,14 +164,16 @@ def run(res, f, tier):
                 dangling_err = dangling_err or ret.startswith("Err(InvalidEscape")
                 continue
             v = conds.get(E1, "")
-            if not v:
-                # the escape letter compared one value at a time (a chain of `==`, a search through a constant table)
-                eqs = {int(m_.group(1)): r_ for c_, r_ in conds.items() for m_ in [re.fullmatch(r"Eq\((\d+), %s\)" % re.escape(E1), c_)] if m_}
-                yes = [k_ for k_, r_ in eqs.items() if r_ == "val not:0"]
+            # the escape letter may (also) be compared one value at a time: a chain of `==`, a search through a constant
+            # table, a `match` for the simple escapes followed by `== 'u'`
+            eqs = {int(m_.group(1)): r_ for c_, r_ in conds.items() for m_ in [re.fullmatch(r"Eq\((\d+), %s\)" % re.escape(E1), c_)] if m_}
+            yes = [k_ for k_, r_ in eqs.items() if r_ == "val not:0"]
+            if not (v.startswith("val ") and not v.startswith("val not:")):
                 if len(yes) == 1:
                     v = "val %d" % yes[0]
-                elif eqs and not yes:
-                    v = "val not:" + ",".join(str(k_) for k_ in sorted(eqs))
+                elif eqs or v:
+                    ruled_out = set(k_ for k_, r_ in eqs.items() if r_ == "val 0") | set(int(x) for x in v[8:].split(",") if v.startswith("val not:") and x)
+                    v = "val not:" + ",".join(str(k_) for k_ in sorted(ruled_out))
             if v.startswith("val not:"):
                 other_err = other_err or (ret.startswith("Err(InvalidEscape") and not pushes)
                 table_found.setdefault("other", set()).add(tuple(sorted(int(x) for x in v[8:].split(","))))
